@@ -17,3 +17,118 @@ Definition gene_tag : Type := (string * Z)%type.
 
 Definition comb_gene_tag (first : gene_tag) (ps : list gene_tag) : gene_tag :=
   (join_strings (map fst ps), snd first).
+
+(* ==== combiners.py, complete =====================================================
+   get_combiners(table, stranded, combine=None): the dictionary `cmb` (column name ->
+   combining function; Gen/IvCombiners.v: combiner_table, regenerated from the source),
+   the strand rule (first_of if stranded else merge_strands), restricted to the columns
+   of the table; first_of, last_of, max, join_strings, sum, merge_strands, make_const.
+   A column without an entry keeps the value of the group's FIRST row
+   (firsttup._replace / first_row._replace only replace the combined fields).
+
+   merge() hands each combiner a pandas Series of the group's values, flatten() a
+   Python list; all the functions below give the same result on both.  Values are
+   typed per column: strings (gene, accession, strand), rationals (weight: every float
+   is an exact dyadic rational; Python's left-to-right `sum` is modelled exactly),
+   integers (probes, and the combiner-less column `tag`). *)
+From CNV Require Import Base.QNum.
+From CNV Require Gen.IvCombiners.
+
+Inductive ckind := CFirst | CLast | CMax | CJoin | CSum | CStrands.
+
+(* the functions of combiners.py (and the builtins max / sum) by their Python name *)
+Definition ckind_of_name (s : string) : option ckind :=
+  if String.eqb s "first_of" then Some CFirst
+  else if String.eqb s "last_of" then Some CLast
+  else if String.eqb s "max" then Some CMax
+  else if String.eqb s "max_of" then Some CMax
+  else if String.eqb s "join_strings" then Some CJoin
+  else if String.eqb s "sum" then Some CSum
+  else if String.eqb s "merge_strands" then Some CStrands
+  else None.
+
+Fixpoint assoc_name (k : string) (l : list (string * string)) : option string :=
+  match l with
+  | [] => None
+  | (k', v) :: t => if String.eqb k k' then Some v else assoc_name k t
+  end.
+
+(* get_combiners(...)[col] for combine=None; None: the column has no combiner *)
+Definition default_combiner (stranded : bool) (col : string) : option ckind :=
+  match assoc_name col Gen.IvCombiners.combiner_table with
+  | Some nm => ckind_of_name nm
+  | None =>
+      if String.eqb col "strand"
+      then ckind_of_name (if stranded then Gen.IvCombiners.strand_combiner_stranded
+                          else Gen.IvCombiners.strand_combiner_unstranded)
+      else None
+  end.
+
+(* merge_strands: the common strand, or "." when the strands differ (elems non-empty) *)
+Definition merge_strands (l : list string) : string :=
+  match uniq l with
+  | [] => EmptyString
+  | [s] => s
+  | _ => Gen.IvCombiners.mixed_strand
+  end.
+
+(* make_const(val) *)
+Definition make_const {V} (v : V) (elems : list V) : V := v.
+
+Fixpoint maxZ_from (m : Z) (l : list Z) : Z :=
+  match l with [] => m | x :: t => maxZ_from (Z.max m x) t end.
+
+(* Python's sum(): 0 + x1 + x2 + ... from the left *)
+Definition py_sumQ (l : list Q) : Q := fold_left (fun a x => Qred (a + x)) l 0%Q.
+
+Fixpoint maxQ_from (m : Q) (l : list Q) : Q :=
+  match l with [] => m | x :: t => maxQ_from (if Qle_bool x m then m else x) t end.
+
+(* one column of the group through its combiner; `first` = the value in the group's
+   first row (what a column without a combiner keeps); `vals` = the column over the
+   rows being combined (never empty).  Combinations that raise TypeError in Python
+   (sum of strings, join of numbers) do not occur with the default table and keep
+   the first value here. *)
+Definition comb_str (k : option ckind) (first : string) (vals : list string) : string :=
+  match k with
+  | Some CJoin => join_strings vals
+  | Some CStrands => merge_strands vals
+  | Some CFirst => hd first vals
+  | Some CLast => last vals first
+  | _ => first
+  end.
+
+Definition comb_Z (k : option ckind) (first : Z) (vals : list Z) : Z :=
+  match k with
+  | Some CSum => sumZ vals
+  | Some CMax => match vals with [] => first | x :: t => maxZ_from x t end
+  | Some CFirst => hd first vals
+  | Some CLast => last vals first
+  | _ => first
+  end.
+
+Definition comb_Q (k : option ckind) (first : Q) (vals : list Q) : Q :=
+  match k with
+  | Some CSum => py_sumQ vals
+  | Some CMax => match vals with [] => first | x :: t => maxQ_from x t end
+  | Some CFirst => hd first vals
+  | Some CLast => last vals first
+  | _ => first
+  end.
+
+(* the other fields of a row with every default-combined column and one column
+   ("tag") that has no combiner *)
+Record pcols := mkPcols {
+  c_gene : string; c_acc : string; c_strand : string; c_weight : Q; c_probes : Z; c_tag : Z }.
+
+Definition comb_cols (stranded : bool) (first : pcols) (ps : list pcols) : pcols :=
+  mkPcols (comb_str (default_combiner stranded "gene") (c_gene first) (map c_gene ps))
+         (comb_str (default_combiner stranded "accession") (c_acc first) (map c_acc ps))
+         (comb_str (default_combiner stranded "strand") (c_strand first) (map c_strand ps))
+         (comb_Q (default_combiner stranded "weight") (c_weight first) (map c_weight ps))
+         (comb_Z (default_combiner stranded "probes") (c_probes first) (map c_probes ps))
+         (comb_Z (default_combiner stranded "tag") (c_tag first) (map c_tag ps)).
+
+(* the coordinates of a squashed group, as get_combiners says: start -> first_of, end -> max *)
+Definition comb_start (starts : list Z) : Z := comb_Z (default_combiner false "start") 0 starts.
+Definition comb_end (ends : list Z) : Z := comb_Z (default_combiner false "end") 0 ends.
